@@ -94,6 +94,10 @@ class TypeScriptMagicNumberAnalyzer(TypeScriptBaseAnalyzer):  # thailint: ignore
                 return int(text, 0)
             # Try int first
             if "." not in text and "e" not in lowered:
+                digits = text.replace("_", "")
+                if len(digits) > 1 and digits.startswith("0") and digits.isdigit():
+                    # Legacy forms of sloppy-mode JavaScript: 0777 is octal, 089 is decimal
+                    return int(digits, 8) if set(digits) <= set("01234567") else int(digits, 10)
                 return int(text, 0)  # Handles hex, octal, binary
             # Otherwise float
             return float(text)
